@@ -1,8 +1,10 @@
 package rules
 
 import (
+	"encoding/json"
 	"fmt"
 	"go/types"
+	"os"
 	"path/filepath"
 	"sort"
 	"strings"
@@ -50,6 +52,55 @@ func (c *Ctx) tab() *tabData {
 	}
 	d.tables, d.err = tab.ExtractTables(c.P)
 	if d.err == nil {
+		// a table whose variable was renamed keeps its identity: the reference snapshot (tables.json) records the
+		// element type of each table; a missing name is given to the only unknown table of the same package and type
+		if c.VerifDir != "" {
+			if b, err := os.ReadFile(filepath.Join(c.VerifDir, "tables.json")); err == nil {
+				ref := map[string]tab.TableRef{}
+				if json.Unmarshal(b, &ref) == nil {
+					var names []string
+					for name := range ref {
+						names = append(names, name)
+					}
+					sort.Strings(names)
+					taken := map[string]bool{}
+					for _, name := range names {
+						if d.tables[name] != nil {
+							continue
+						}
+						pkg := name[:strings.Index(name, ".")+1]
+						want := map[string]bool{}
+						for _, p := range ref[name].Patterns {
+							want[p] = true
+						}
+						best, bestScore, tie := "", 0.0, false
+						for n2, t2 := range d.tables {
+							if _, known := ref[n2]; known || taken[n2] || !strings.HasPrefix(n2, pkg) || t2.ValType != ref[name].ValType {
+								continue
+							}
+							inter := 0
+							for _, row := range t2.Rows {
+								if want[row.Pattern] {
+									inter++
+								}
+							}
+							score := float64(inter+1) / float64(len(want)+len(t2.Rows)-inter+1)
+							switch {
+							case score > bestScore:
+								best, bestScore, tie = n2, score, false
+							case score == bestScore:
+								tie = true
+							}
+						}
+						if best != "" && !tie && bestScore >= 0.3 {
+							d.tables[name] = d.tables[best]
+							taken[best] = true
+							c.Notes = append(c.Notes, "table "+best+" is "+name+" of the reference tree, renamed")
+						}
+					}
+				}
+			}
+		}
 		c.Stats["schema.paths"] = len(d.schema.Nodes)
 		c.Stats["model.paths"] = len(d.model.Nodes)
 		for n, t := range d.tables {
@@ -224,8 +275,9 @@ func (c *Ctx) mergerClass(fn *ssa.Function) string {
 					continue
 				}
 				if cal := call.Call.StaticCallee(); cal != nil && c.P.InModule(cal) {
-					callsConv[cal.Name()] = true
-					if cal.Pkg == fn.Pkg && cal.Name() != "mergeMappings" && cal.Name() != "mergeYaml" {
+					rn := c.P.RefName(cal)
+					callsConv[rn] = true
+					if cal.Pkg == fn.Pkg && rn != "mergeMappings" && rn != "mergeYaml" {
 						scan(cal, d-1)
 					}
 				}
